@@ -144,6 +144,16 @@ impl SExp {
         }
     }
 
+    pub fn has_division(&self) -> bool {
+        match self {
+            SExp::Num(_) | SExp::Var(_) => false,
+            SExp::Div(..) => true,
+            SExp::Neg(e) | SExp::Abs(e) | SExp::Not(e) => e.has_division(),
+            SExp::Add(a, b) | SExp::Sub(a, b) | SExp::Mul(a, b) | SExp::Xor(a, b) | SExp::Implies(a, b) | SExp::Iff(a, b) => a.has_division() || b.has_division(),
+            SExp::Min(es) | SExp::Max(es) | SExp::And(es) | SExp::Or(es) => es.iter().any(|e| e.has_division()),
+        }
+    }
+
     /// every numeric literal of the expression
     pub fn consts(&self, out: &mut Vec<f64>) {
         match self {
